@@ -34,3 +34,456 @@ Qed.
 
 Lemma plan_identical_none : forall s, plan s s = None.
 Proof. intros s. unfold plan. now rewrite skel_eqb_refl. Qed.
+
+(* ------------------------------------------------------------------ *)
+(* equality tests                                                      *)
+
+Lemma skel_eqb_eq : forall o n, skel_eqb o n = true -> o = n.
+Proof.
+  induction o as [l|x|x|cs IH] using skel_ind'; intros [l2|y|y|cs2] H; cbn in H;
+    try discriminate.
+  - apply N.eqb_eq in H. now subst.
+  - apply N.eqb_eq in H. now subst.
+  - apply N.eqb_eq in H. now subst.
+  - f_equal. revert cs2 H.
+    induction IH as [|x xs Hx _ IHxs]; intros [|y ys] H; try discriminate; auto.
+    apply andb_true_iff in H as [H1 H2]. f_equal; auto.
+Qed.
+
+Lemma plan_none_eq : forall o n, plan o n = None -> o = n.
+Proof.
+  intros o n H. unfold plan in H.
+  destruct (skel_eqb o n) eqn:E; [now apply skel_eqb_eq | discriminate].
+Qed.
+
+Lemma nodes_match_eq : forall o n, nodes_match o n = true -> o = n.
+Proof.
+  induction o as [l|x|x|cs IH] using skel_ind'; intros [l2|y|y|cs2] H; cbn in H;
+    try discriminate.
+  - apply N.eqb_eq in H. now subst.
+  - apply N.eqb_eq in H. now subst.
+  - apply N.eqb_eq in H. now subst.
+  - apply andb_true_iff in H as [HL H]. apply Nat.eqb_eq in HL.
+    f_equal. revert cs2 HL H.
+    induction IH as [|x xs Hx _ IHxs]; intros [|y ys] HL H; try discriminate; auto.
+    apply andb_true_iff in H as [H1 H2]. cbn in HL. f_equal; auto.
+Qed.
+
+Lemma nodes_match_refl : forall s, nodes_match s s = true.
+Proof.
+  induction s as [l|n|n|cs IH] using skel_ind'; cbn; try apply N.eqb_refl.
+  rewrite Nat.eqb_refl. cbn.
+  induction IH as [|x xs Hx _ IHxs]; [reflexivity|].
+  rewrite Hx. exact IHxs.
+Qed.
+
+(* ------------------------------------------------------------------ *)
+(* unfolding of bp through top-level names for its local fixpoints     *)
+
+Definition cols_of (g : skel -> N -> list patch) : list skel -> N -> list (list patch) :=
+  fix cols (ns : list skel) (dn' : N) : list (list patch) :=
+    match ns with
+    | [] => []
+    | nc :: ns' => g nc dn' :: cols ns' (dn' + size nc)
+    end.
+
+Definition rows_of (f : skel -> skel -> N -> N -> list patch) (ncs : list skel) (dn : N)
+  : list skel -> N -> list (list (list patch)) :=
+  fix rows (os : list skel) (so' : N) : list (list (list patch)) :=
+    match os with
+    | [] => []
+    | oc :: os' =>
+        cols_of (fun nc dn' => f oc nc so' dn') ncs dn :: rows os' (so' + size oc)
+    end.
+
+Definition mk_table (ocs ncs : list skel) (so dn : N) : list (list (list patch)) :=
+  rows_of bp ncs dn ocs so.
+
+Lemma bp_unfold : forall o n so dn,
+  bp o n so dn =
+  if nodes_match o n then [mkPatch so dn (size o)]
+  else match o, n with
+       | FnCall ocs, FnCall ncs =>
+           let table := mk_table ocs ncs so dn in
+           nodup patch_eq_dec
+             (collect table
+                (lcs_by_score (length ocs) (length ncs) (map (map score_of) table)))
+       | _, _ => []
+       end.
+Proof. intros o n so dn. destruct o; reflexivity. Qed.
+
+(* ------------------------------------------------------------------ *)
+(* offsets of children                                                 *)
+
+Definition offs (l : list skel) (i : nat) : N := sumN (map size (firstn i l)).
+
+Lemma offs_0 : forall l, offs l 0 = 0.
+Proof. reflexivity. Qed.
+
+Lemma offs_cons_S : forall x l i, offs (x :: l) (S i) = size x + offs l i.
+Proof. reflexivity. Qed.
+
+Lemma offs_step : forall l i,
+  offs l (S i) = offs l i + match nth_error l i with Some c => size c | None => 0 end.
+Proof.
+  induction l as [|x l IH]; intros i.
+  - destruct i; reflexivity.
+  - destruct i as [|i].
+    + rewrite offs_cons_S, !offs_0. cbn [nth_error]. lia.
+    + rewrite !offs_cons_S, IH. cbn [nth_error]. lia.
+Qed.
+
+Lemma offs_S_nth : forall l i d, (i < length l)%nat ->
+  offs l (S i) = offs l i + size (nth i l d).
+Proof.
+  intros l i d H. rewrite offs_step. now rewrite (nth_error_nth' l d H).
+Qed.
+
+Lemma offs_mono : forall l i i', (i <= i')%nat -> offs l i <= offs l i'.
+Proof.
+  intros l i i' H. induction H as [|k _ IH]; [lia|].
+  rewrite offs_step. lia.
+Qed.
+
+Lemma offs_total : forall l i, offs l i <= sumN (map size l).
+Proof.
+  induction l as [|x l IH]; intros [|i]; try (rewrite offs_0; lia).
+  - cbn. lia.
+  - rewrite offs_cons_S. cbn [map sumN fold_right]. specialize (IH i). unfold sumN in IH. lia.
+Qed.
+
+(* ------------------------------------------------------------------ *)
+(* the table built by bp                                               *)
+
+Lemma cols_of_length : forall g ns dn, length (cols_of g ns dn) = length ns.
+Proof.
+  intros g ns. induction ns as [|x ns IH]; intros dn; cbn; [reflexivity|].
+  now rewrite IH.
+Qed.
+
+Lemma cols_of_nth : forall g ns dn j d, (j < length ns)%nat ->
+  nth j (cols_of g ns dn) [] = g (nth j ns d) (dn + offs ns j).
+Proof.
+  intros g ns. induction ns as [|x ns IH]; intros dn j d H; cbn [length] in H; [lia|].
+  destruct j as [|j].
+  - cbn [cols_of nth]. rewrite offs_0. f_equal. lia.
+  - cbn [cols_of nth]. fold (cols_of g). rewrite (IH _ _ d) by lia.
+    rewrite offs_cons_S. f_equal. lia.
+Qed.
+
+Lemma rows_of_length : forall f ncs dn os so, length (rows_of f ncs dn os so) = length os.
+Proof.
+  intros f ncs dn os. induction os as [|x os IH]; intros so; cbn; [reflexivity|].
+  now rewrite IH.
+Qed.
+
+Lemma rows_of_nth : forall f ncs dn os so i d, (i < length os)%nat ->
+  nth i (rows_of f ncs dn os so) [] =
+  cols_of (fun nc dn' => f (nth i os d) nc (so + offs os i) dn') ncs dn.
+Proof.
+  intros f ncs dn os. induction os as [|x os IH]; intros so i d H; cbn [length] in H; [lia|].
+  destruct i as [|i].
+  - cbn [rows_of nth]. rewrite offs_0, N.add_0_r. reflexivity.
+  - cbn [rows_of nth]. fold (rows_of f ncs dn). rewrite (IH _ _ d) by lia.
+    rewrite offs_cons_S, N.add_assoc. reflexivity.
+Qed.
+
+Lemma table_at_in : forall ocs ncs so dn i j d, (i < length ocs)%nat -> (j < length ncs)%nat ->
+  table_at (mk_table ocs ncs so dn) i j =
+  bp (nth i ocs d) (nth j ncs d) (so + offs ocs i) (dn + offs ncs j).
+Proof.
+  intros ocs ncs so dn i j d Hi Hj. unfold table_at, mk_table.
+  rewrite (rows_of_nth _ _ _ _ _ _ d Hi). now rewrite (cols_of_nth _ _ _ _ d Hj).
+Qed.
+
+Lemma table_at_out : forall ocs ncs so dn i j,
+  ~ ((i < length ocs)%nat /\ (j < length ncs)%nat) ->
+  table_at (mk_table ocs ncs so dn) i j = [].
+Proof.
+  intros ocs ncs so dn i j H. unfold table_at, mk_table.
+  destruct (Nat.lt_ge_cases i (length ocs)) as [Hi|Hi].
+  - rewrite (rows_of_nth _ _ _ _ _ _ (Mem 0) Hi).
+    apply nth_overflow. rewrite cols_of_length. lia.
+  - rewrite (nth_overflow (rows_of bp ncs dn ocs so)) by (rewrite rows_of_length; lia).
+    destruct j; reflexivity.
+Qed.
+
+(* ------------------------------------------------------------------ *)
+(* the LCS backtrack returns strictly increasing Common pairs,          *)
+(* whatever the score and dp tables are                                *)
+
+Fixpoint commons (rs : list diff_result) : list (nat * nat) :=
+  match rs with
+  | [] => []
+  | Common i j :: r => (i, j) :: commons r
+  | _ :: r => commons r
+  end.
+
+Definition lt2 (a b : nat * nat) : Prop := (fst a < fst b)%nat /\ (snd a < snd b)%nat.
+
+Lemma collect_commons : forall T rs,
+  collect T rs = flat_map (fun c => table_at T (fst c) (snd c)) (commons rs).
+Proof.
+  intros T rs. induction rs as [|[i j|i|j] rs IH]; cbn [collect commons flat_map fst snd]; auto.
+  now rewrite IH.
+Qed.
+
+Lemma backtrack_sorted : forall fuel scores dp i j acc,
+  StronglySorted lt2 (commons acc) ->
+  Forall (fun c => (i <= fst c)%nat /\ (j <= snd c)%nat) (commons acc) ->
+  StronglySorted lt2 (commons (backtrack fuel scores dp i j acc)).
+Proof.
+  induction fuel as [|fuel IH]; intros scores dp i j acc HS HF; cbn [backtrack]; auto.
+  destruct i as [|i], j as [|j]; auto.
+  - apply IH; cbn [commons]; auto.
+    eapply Forall_impl; [|exact HF]. cbn. intros; lia.
+  - apply IH; cbn [commons]; auto.
+    eapply Forall_impl; [|exact HF]. cbn. intros; lia.
+  - destruct (0 <? score_at scores i j).
+    + apply IH; cbn [commons].
+      * constructor; [exact HS|]. eapply Forall_impl; [|exact HF].
+        intros [a b]. unfold lt2. cbn. lia.
+      * constructor; [cbn; lia|]. eapply Forall_impl; [|exact HF]. cbn. intros; lia.
+    + destruct (dp_at dp (S i) j <? dp_at dp i (S j)).
+      * apply IH; cbn [commons]; auto.
+        eapply Forall_impl; [|exact HF]. cbn. intros; lia.
+      * apply IH; cbn [commons]; auto.
+        eapply Forall_impl; [|exact HF]. cbn. intros; lia.
+Qed.
+
+Lemma lcs_sorted : forall n m scores, StronglySorted lt2 (commons (lcs_by_score n m scores)).
+Proof.
+  intros. unfold lcs_by_score. apply backtrack_sorted; cbn; constructor.
+Qed.
+
+(* ------------------------------------------------------------------ *)
+(* sorted lists                                                        *)
+
+Lemma SSorted_app : forall (A : Type) (R : A -> A -> Prop) l1 l2,
+  StronglySorted R l1 -> StronglySorted R l2 ->
+  (forall x y, In x l1 -> In y l2 -> R x y) ->
+  StronglySorted R (l1 ++ l2).
+Proof.
+  intros A R l1 l2 H1 H2 H. induction H1 as [|a l1 H1 IH HF]; cbn; auto.
+  constructor.
+  - apply IH. intros x y Hx Hy. apply H; [now right|assumption].
+  - apply Forall_app. split; auto.
+    apply Forall_forall. intros y Hy. apply H; [now left|assumption].
+Qed.
+
+Lemma SSorted_nodup : forall (A : Type) (dec : forall x y : A, {x = y} + {x <> y})
+  (R : A -> A -> Prop) l, StronglySorted R l -> StronglySorted R (nodup dec l).
+Proof.
+  intros A dec R l H. induction H as [|a l H IH HF]; cbn; [constructor|].
+  destruct (in_dec dec a l); auto.
+  constructor; auto.
+  apply Forall_forall. intros y Hy. apply nodup_In in Hy.
+  rewrite Forall_forall in HF. auto.
+Qed.
+
+Lemma SSorted_pair : forall (A : Type) (R : A -> A -> Prop) l p q,
+  StronglySorted R l -> In p l -> In q l -> p <> q -> R p q \/ R q p.
+Proof.
+  intros A R l p q H. induction H as [|a l H IH HF]; intros Hp Hq Hne; [destruct Hp|].
+  rewrite Forall_forall in HF.
+  destruct Hp as [Hp|Hp], Hq as [Hq|Hq]; subst; auto.
+  congruence.
+Qed.
+
+(* ------------------------------------------------------------------ *)
+(* the structural invariant of bp                                      *)
+
+Definition before (p q : patch) : Prop :=
+  p_src p + p_sz p <= p_src q /\ p_dst p + p_sz p <= p_dst q.
+
+Definition within (so szo dn szn : N) (p : patch) : Prop :=
+  so <= p_src p /\ p_src p + p_sz p <= so + szo /\
+  dn <= p_dst p /\ p_dst p + p_sz p <= dn + szn.
+
+Lemma blocks_sorted : forall (T : list (list (list patch))) (A B : nat -> N),
+  (forall i i', (i <= i')%nat -> A i <= A i') ->
+  (forall j j', (j <= j')%nat -> B j <= B j') ->
+  (forall i j, StronglySorted before (table_at T i j)) ->
+  (forall i j p, In p (table_at T i j) ->
+     A i <= p_src p /\ p_src p + p_sz p <= A (S i) /\
+     B j <= p_dst p /\ p_dst p + p_sz p <= B (S j)) ->
+  forall cs, StronglySorted lt2 cs ->
+  StronglySorted before (flat_map (fun c => table_at T (fst c) (snd c)) cs).
+Proof.
+  intros T A B HA HB HS HIn cs Hcs.
+  induction Hcs as [|c cs Hcs IH HF]; cbn [flat_map]; [constructor|].
+  apply SSorted_app; auto.
+  intros x y Hx Hy. apply in_flat_map in Hy as [c' [Hc' Hy]].
+  rewrite Forall_forall in HF. destruct (HF _ Hc') as [L1 L2].
+  apply HIn in Hx. apply HIn in Hy.
+  specialize (HA (S (fst c)) (fst c') L1). specialize (HB (S (snd c)) (snd c') L2).
+  unfold before. lia.
+Qed.
+
+Lemma size_FnCall : forall cs, size (FnCall cs) = sumN (map size cs).
+Proof. reflexivity. Qed.
+
+Definition bp_ok (o : skel) : Prop :=
+  forall n so dn,
+    StronglySorted before (bp o n so dn) /\
+    Forall (within so (size o) dn (size n)) (bp o n so dn).
+
+Lemma table_blocks : forall ocs ncs so dn, Forall bp_ok ocs ->
+  forall i j,
+    StronglySorted before (table_at (mk_table ocs ncs so dn) i j) /\
+    forall p, In p (table_at (mk_table ocs ncs so dn) i j) ->
+      so + offs ocs i <= p_src p /\ p_src p + p_sz p <= so + offs ocs (S i) /\
+      dn + offs ncs j <= p_dst p /\ p_dst p + p_sz p <= dn + offs ncs (S j).
+Proof.
+  intros ocs ncs so dn IH i j. rewrite Forall_forall in IH.
+  destruct (Nat.lt_ge_cases i (length ocs)) as [Hi|Hi];
+    [destruct (Nat.lt_ge_cases j (length ncs)) as [Hj|Hj]|].
+  - rewrite (table_at_in _ _ _ _ _ _ (Mem 0) Hi Hj).
+    destruct (IH (nth i ocs (Mem 0)) (nth_In _ _ Hi) (nth j ncs (Mem 0))
+                 (so + offs ocs i) (dn + offs ncs j)) as [S1 S2].
+    split; auto. intros p Hp. rewrite Forall_forall in S2. specialize (S2 p Hp).
+    unfold within in S2.
+    rewrite (offs_S_nth _ _ (Mem 0) Hi), (offs_S_nth _ _ (Mem 0) Hj). lia.
+  - rewrite table_at_out by lia. split; [constructor|intros p []].
+  - rewrite table_at_out by lia. split; [constructor|intros p []].
+Qed.
+
+Lemma table_sorted : forall ocs ncs so dn, Forall bp_ok ocs ->
+  forall cs, StronglySorted lt2 cs ->
+  StronglySorted before
+    (flat_map (fun c => table_at (mk_table ocs ncs so dn) (fst c) (snd c)) cs).
+Proof.
+  intros ocs ncs so dn IH cs Hcs.
+  apply (blocks_sorted _ (fun i => so + offs ocs i) (fun j => dn + offs ncs j)); auto.
+  - intros i i' H. pose proof (offs_mono ocs i i' H). lia.
+  - intros j j' H. pose proof (offs_mono ncs j j' H). lia.
+  - intros i j. apply table_blocks; auto.
+  - intros i j. apply table_blocks; auto.
+Qed.
+
+Theorem bp_inv : forall o, bp_ok o.
+Proof.
+  unfold bp_ok.
+  induction o as [l|x|x|ocs IH] using skel_ind'; intros n so dn; rewrite bp_unfold;
+    (destruct (nodes_match _ n) eqn:E;
+     [apply nodes_match_eq in E; subst n; split;
+      [repeat constructor | repeat constructor; cbn [p_src p_dst p_sz]; lia]|]);
+    try (split; constructor).
+  destruct n as [l|x|x|ncs]; try (split; constructor).
+  cbv zeta. rewrite collect_commons.
+  set (cs := commons _).
+  assert (Hcs : StronglySorted lt2 cs) by apply lcs_sorted.
+  clearbody cs.
+  split.
+  - apply SSorted_nodup. apply table_sorted; auto.
+  - apply Forall_forall. intros p Hp. apply nodup_In in Hp.
+    apply in_flat_map in Hp as [c [_ Hp]].
+    apply (table_blocks ocs ncs so dn IH) in Hp. unfold within. rewrite !size_FnCall.
+    pose proof (offs_total ocs (S (fst c))). pose proof (offs_total ncs (S (snd c))).
+    pose proof (offs_mono ocs 0 (fst c) (Nat.le_0_l _)).
+    pose proof (offs_mono ncs 0 (snd c) (Nat.le_0_l _)).
+    rewrite offs_0 in *. lia.
+Qed.
+
+Lemma all_bp_ok : forall l, Forall bp_ok l.
+Proof. intros l. apply Forall_forall. intros o _. apply bp_inv. Qed.
+
+Lemma collect_sorted : forall ocs ncs so dn n m scores,
+  StronglySorted before (collect (mk_table ocs ncs so dn) (lcs_by_score n m scores)).
+Proof.
+  intros. rewrite collect_commons. apply table_sorted; [apply all_bp_ok|apply lcs_sorted].
+Qed.
+
+(* ------------------------------------------------------------------ *)
+(* consequences for take_diff                                          *)
+
+Lemma take_diff_sorted : forall o n, StronglySorted before (take_diff o n).
+Proof. intros o n. apply bp_inv. Qed.
+
+Lemma take_diff_in_bounds : forall (o n : skel) (p : patch),
+  In p (take_diff o n) ->
+  p_src p + p_sz p <= size o /\ p_dst p + p_sz p <= size n.
+Proof.
+  intros o n p H. destruct (bp_inv o n 0 0) as [_ HF].
+  rewrite Forall_forall in HF. specialize (HF p H). unfold within in HF. lia.
+Qed.
+
+Lemma take_diff_before : forall (o n : skel) (p q : patch),
+  In p (take_diff o n) -> In q (take_diff o n) -> p <> q -> before p q \/ before q p.
+Proof.
+  intros o n p q Hp Hq Hne. exact (SSorted_pair _ _ _ _ _ (take_diff_sorted o n) Hp Hq Hne).
+Qed.
+
+Lemma take_diff_disjoint : forall (o n : skel) (p q : patch),
+  In p (take_diff o n) -> In q (take_diff o n) -> p <> q ->
+  (p_dst p + p_sz p <= p_dst q \/ p_dst q + p_sz q <= p_dst p) /\
+  (p_src p + p_sz p <= p_src q \/ p_src q + p_sz q <= p_src p).
+Proof.
+  intros o n p q Hp Hq Hne.
+  destruct (take_diff_before o n p q Hp Hq Hne) as [[H1 H2]|[H1 H2]]; lia.
+Qed.
+
+Lemma take_diff_order : forall (o n : skel) (p q : patch),
+  In p (take_diff o n) -> In q (take_diff o n) ->
+  0 < p_sz p -> 0 < p_sz q ->
+  p_dst p < p_dst q -> p_src p < p_src q.
+Proof.
+  intros o n p q Hp Hq Zp Zq Hlt.
+  assert (Hne : p <> q) by (intros ->; lia).
+  destruct (take_diff_before o n p q Hp Hq Hne) as [[H1 H2]|[H1 H2]]; lia.
+Qed.
+
+Lemma collect_In : forall T rs p, In p (collect T rs) -> exists i j, In p (table_at T i j).
+Proof.
+  intros T rs p H. rewrite collect_commons in H.
+  apply in_flat_map in H as [c [_ H]]. eauto.
+Qed.
+
+Lemma shape_root : forall o so dn,
+  let p := mkPatch so dn (size o) in
+  exists (po pn : list nat) (t : skel) (a b : N),
+    subtree o po = Some t /\ subtree o pn = Some t /\
+    path_to_address o po = Some (a, p_sz p) /\
+    path_to_address o pn = Some (b, p_sz p) /\
+    p_src p = so + a /\ p_dst p = dn + b.
+Proof.
+  intros o so dn p. exists [], [], o, 0, 0. subst p.
+  cbn [subtree path_to_address p_src p_dst p_sz]. repeat split; try reflexivity; lia.
+Qed.
+
+Lemma bp_shape : forall o n so dn p, In p (bp o n so dn) ->
+  exists (po pn : list nat) (t : skel) (a b : N),
+    subtree o po = Some t /\ subtree n pn = Some t /\
+    path_to_address o po = Some (a, p_sz p) /\
+    path_to_address n pn = Some (b, p_sz p) /\
+    p_src p = so + a /\ p_dst p = dn + b.
+Proof.
+  induction o as [l|x|x|ocs IH] using skel_ind'; intros n so dn p; rewrite bp_unfold;
+    (destruct (nodes_match _ n) eqn:E;
+     [apply nodes_match_eq in E; subst n; intros [<-|[]]; apply shape_root|]);
+    try (intros []).
+  destruct n as [l|x|x|ncs]; try (intros []).
+  cbv zeta. intros Hp. apply nodup_In in Hp. apply collect_In in Hp as [i [j Hp]].
+  destruct (Nat.lt_ge_cases i (length ocs)) as [Hi|Hi];
+    [destruct (Nat.lt_ge_cases j (length ncs)) as [Hj|Hj]|];
+    try (rewrite table_at_out in Hp by lia; destruct Hp).
+  rewrite (table_at_in _ _ _ _ _ _ (Mem 0) Hi Hj) in Hp.
+  rewrite Forall_forall in IH.
+  destruct (IH _ (nth_In _ _ Hi) _ _ _ _ Hp) as (po & pn & t & a & b & S1 & S2 & A1 & A2 & E1 & E2).
+  exists (i :: po), (j :: pn), t, (offs ocs i + a), (offs ncs j + b).
+  cbn [subtree path_to_address].
+  rewrite (nth_error_nth' ocs (Mem 0) Hi), (nth_error_nth' ncs (Mem 0) Hj).
+  rewrite A1, A2. unfold offs in *. repeat split; auto; lia.
+Qed.
+
+Lemma take_diff_same_shape : forall (o n : skel) (p : patch),
+  In p (take_diff o n) ->
+  exists (po pn : list nat) (t : skel),
+    subtree o po = Some t /\ subtree n pn = Some t /\
+    path_to_address o po = Some (p_src p, p_sz p) /\
+    path_to_address n pn = Some (p_dst p, p_sz p).
+Proof.
+  intros o n p H.
+  destruct (bp_shape o n 0 0 p H) as (po & pn & t & a & b & S1 & S2 & A1 & A2 & E1 & E2).
+  exists po, pn, t. rewrite E1, E2, !N.add_0_l. auto.
+Qed.
